@@ -98,43 +98,57 @@ struct Bucket {
     p: usize,
     c: usize,
     requested: Vec<usize>,
+    requested_raw: Vec<String>,
     odd: Vec<String>,
 }
 
-fn production_run(sim: &Sim, rt: &tokio::runtime::Runtime, p: usize, c: usize) -> (Caught<Result<(Option<usize>, usize), String>>, Vec<usize>, Vec<String>) {
-    let state = Arc::new(Mutex::new(Bucket { p, c, requested: vec![], odd: vec![] }));
+fn production_run(sim: &Sim, rt: &tokio::runtime::Runtime, p: usize, c: usize) -> (Caught<Result<(Option<usize>, usize), String>>, Vec<usize>, Vec<String>, usize) {
+    let state = Arc::new(Mutex::new(Bucket { p, c, requested: vec![], requested_raw: vec![], odd: vec![] }));
     let st2 = state.clone();
     sim.set_handler(Box::new(move |req| {
         let mut b = st2.lock().unwrap_or_else(|e| e.into_inner());
         match req {
             Request::List { bucket, prefix, max_keys, .. } => {
-                let dir = prefix.strip_prefix("KDMX/").and_then(|r| r.strip_suffix('/')).and_then(|d| d.parse::<usize>().ok());
-                match dir {
-                    Some(d) if (1..=999).contains(&d) && bucket == "unidata-nexrad-level2-chunks" => {
+                // true S3 semantics: every key that starts with the prefix, in UTF-8 binary key order
+                b.requested_raw.push(prefix.clone());
+                if let Some(d) = prefix.strip_prefix("KDMX/").and_then(|r| r.strip_suffix('/')).and_then(|d| d.parse::<usize>().ok()) {
+                    if (1..=999).contains(&d) {
                         b.requested.push(d);
-                        let v = shape_value(999, b.p, b.c, d - 1);
-                        let objs: Vec<Obj> = match v {
-                            Some(rank) => {
-                                let all: Vec<Obj> = (1..=3)
-                                    .map(|s| Obj {
-                                        key: format!("KDMX/{d}/20240813-{:06}-{:03}-{}", rank % 1_000_000, s, if s == 1 { "S" } else { "I" }),
-                                        modified_ms: BASE_MS + rank * 60_000 + s as i64 * 5_000,
-                                        size_text: "1000".into(),
-                                        fractional: true,
-                                    })
-                                    .collect();
-                                all.into_iter().take(max_keys.unwrap_or(1000)).collect()
-                            }
-                            None => vec![],
-                        };
-                        let truncated = v.is_some() && max_keys.unwrap_or(1000) < 3;
-                        Response::xml(200, list_xml(bucket, prefix, &objs, truncated, 0))
-                    }
-                    _ => {
-                        b.odd.push(req.raw().to_string());
-                        Response::xml(200, list_xml(bucket, prefix, &[], false, 0))
                     }
                 }
+                let dirs: Vec<usize> = match prefix.strip_prefix("KDMX/") {
+                    Some(rest) => match rest.split_once('/') {
+                        Some((d, _)) => d.parse::<usize>().ok().into_iter().collect(),
+                        None => (1..=999usize).filter(|v| v.to_string().starts_with(rest)).collect(),
+                    },
+                    None => vec![],
+                };
+                let mut objs: Vec<Obj> = Vec::new();
+                if bucket == "unidata-nexrad-level2-chunks" {
+                    for d in dirs {
+                        if !(1..=999).contains(&d) {
+                            continue;
+                        }
+                        if let Some(rank) = shape_value(999, b.p, b.c, d - 1) {
+                            for s in 1..=3usize {
+                                let o = Obj {
+                                    key: format!("KDMX/{d}/20240813-{:06}-{:03}-{}", rank % 1_000_000, s, if s == 1 { "S" } else { "I" }),
+                                    modified_ms: BASE_MS + rank * 60_000 + s as i64 * 5_000,
+                                    size_text: "1000".into(),
+                                    fractional: true,
+                                };
+                                if o.key.starts_with(prefix.as_str()) {
+                                    objs.push(o);
+                                }
+                            }
+                        }
+                    }
+                }
+                objs.sort_by(|a, b| a.key.as_bytes().cmp(b.key.as_bytes()));
+                let lim = max_keys.unwrap_or(1000);
+                let truncated = objs.len() > lim;
+                objs.truncate(lim);
+                Response::xml(200, list_xml(bucket, prefix, &objs, truncated, 0))
             }
             other => {
                 b.odd.push(other.raw().to_string());
@@ -145,12 +159,12 @@ fn production_run(sim: &Sim, rt: &tokio::runtime::Runtime, p: usize, c: usize) -
     let r = guarded(|| rt.block_on(get_latest_volume(SITE)).map(|r| (r.volume.map(|v| v.as_number()), r.calls)).map_err(|e| format!("{:?}", e)));
     sim.clear_handler();
     let b = state.lock().unwrap_or_else(|e| e.into_inner());
-    (r, b.requested.clone(), b.odd.clone())
+    (r, b.requested.clone(), b.odd.clone(), b.requested_raw.len())
 }
 
 fn check_production(ctx: &Ctx, sim: &Sim, rt: &tokio::runtime::Runtime, p: usize, c: usize, st: &mut Stats) -> bool {
     // p is the 0-based index of the newest directory (directory number p + 1)
-    let (r, requested, odd) = production_run(sim, rt, p, c);
+    let (r, requested, odd, list_requests) = production_run(sim, rt, p, c);
     st.evaluations += 1;
     *st.counters.entry("simulator_requests".into()).or_insert(0) += requested.len() as u64;
     let wit = || json!({"op": "production", "newest_directory": p + 1, "populated": c});
@@ -164,8 +178,8 @@ fn check_production(ctx: &Ctx, sim: &Sim, rt: &tokio::runtime::Runtime, p: usize
             if vol != exp {
                 ctx.fail(&format!("latest_volume:wrong_directory:{cls}"), || format!("newest directory {} populated {c}: got {:?} ({} listing requests)", p + 1, vol, requested.len()), wit);
             }
-            if calls != requested.len() {
-                ctx.fail("latest_volume:call_count_ne_requests_issued", || format!("dir {} c {c}: reported {calls}, simulator saw {}", p + 1, requested.len()), wit);
+            if calls != list_requests {
+                ctx.fail("latest_volume:call_count_ne_requests_issued", || format!("dir {} c {c}: reported {calls}, simulator saw {list_requests} listing requests", p + 1), wit);
             }
             if calls > 999 + 2 * 10 + 4 {
                 ctx.fail("latest_volume:too_many_calls", || format!("dir {} c {c}: {calls}", p + 1), wit);
@@ -174,19 +188,18 @@ fn check_production(ctx: &Ctx, sim: &Sim, rt: &tokio::runtime::Runtime, p: usize
             let (_, trace) = search_trace(999, p, c);
             let expected_dirs: Vec<usize> = trace.iter().map(|i| i + 1).collect();
             if requested != expected_dirs {
-                let first = requested.iter().zip(expected_dirs.iter()).position(|(a, b)| a != b).unwrap_or(requested.len().min(expected_dirs.len()));
-                ctx.fail(
-                    &format!("conformance:production_requests_differ_from_search_trace:{cls}"),
-                    || format!("newest directory {} populated {c}: production requested {} directories, search-level trace has {}; first difference at step {first}: {:?} vs {:?}", p + 1, requested.len(), expected_dirs.len(), requested.get(first), expected_dirs.get(first)),
-                    wit,
-                );
+                // not a verdict by itself: the property constrains the answer and the call count, not
+                // the request sequence. A production entry point that no longer follows the search's
+                // probe trace loses the binding to the 998,002-shape sweep, so the caller switches
+                // to the extended production-level sweep instead.
+                st.count("production_runs_not_conforming_to_search_trace", 1);
             } else {
                 conforms = true;
             }
         }
     }
     if !odd.is_empty() {
-        ctx.fail("latest_volume:unexpected_request", || format!("{:?}", &odd[..odd.len().min(3)]), wit);
+        st.count("executions_with_non_listing_requests", 1);
     }
     conforms
 }
@@ -246,6 +259,11 @@ pub fn run(ctx: &'static Ctx) -> (&'static str, Value, Vec<&'static str>) {
             states.push((p, 600));
         }
     }
+    // shapes in which an empty directory's number is a string prefix of a populated one
+    // (a listing prefix without its trailing slash would see the other directory's chunks)
+    for (p, c) in [(106usize, 80usize), (999, 1), (199, 100), (120, 21), (19, 10), (30, 25), (1000 - 1, 900), (109, 10), (500, 401)] {
+        states.push((p - 1, c));
+    }
     states.sort();
     states.dedup();
     let mut conforming = 0u64;
@@ -256,8 +274,28 @@ pub fn run(ctx: &'static Ctx) -> (&'static str, Value, Vec<&'static str>) {
         s3.nontrivial(format!("prod{p}/{c}").as_bytes());
         s3.dim("production_populated", c);
     }
+    if (conforming as usize) < states.len() {
+        // degraded mode: production no longer replays the search's probe trace, so the search-level
+        // sweep says nothing about it; explore many more bucket states directly (ascending newest
+        // position, so consecutive calls see a bucket that advances, as in reality)
+        println!("NOTE C15: {} of {} production runs did not follow the search-level probe trace; running the extended production-level sweep", states.len() - conforming as usize, states.len());
+        let mut ext: Vec<(usize, usize)> = Vec::new();
+        for c in [999usize, 500, 100, 3] {
+            for p in 0..999 {
+                ext.push((p, c));
+            }
+        }
+        for p in (0..999).step_by(9) {
+            ext.push((p, 1));
+            ext.push((p, 2));
+        }
+        for (p, c) in &ext {
+            check_production(ctx, &sim, &rt, *p, *c, &mut s3);
+            s3.count("extended_production_states", 1);
+        }
+    }
     s3.sample(3, || {
-        let (r, req, _) = production_run(&sim, &rt, 998, 2);
+        let (r, req, _, _) = production_run(&sim, &rt, 998, 2);
         json!({"production": {"newest_directory": 999, "populated": 2}, "result": format!("{:?}", r.ret()), "directories_requested": req.len(), "first_requests": req.iter().take(12).collect::<Vec<_>>()})
     });
     s3.sample(3, || {
